@@ -198,7 +198,8 @@ def normalise(tree: ast.AST, rel: str, src: Optional[str] = None) -> int:
     if src is not None and ref.get("__sha1__") == hashlib.sha1(src.encode("utf-8")).hexdigest():
         return 0  # the file is the one the reference was taken from
     changed = 0
-    sigs = _ref().get("__sigs__", {})
+    sigs = dict(_ref().get("__sigs__", {}))
+    sigs.update(ref.get("__sigs__", {}))
     debug = os.environ.get("VERIF_CANON_DEBUG") == "1"
     use_canon = os.environ.get("VERIF_NO_CANON") != "1"
     use_nf = os.environ.get("VERIF_NO_NF") != "1"
@@ -254,6 +255,11 @@ def normalise(tree: ast.AST, rel: str, src: Optional[str] = None) -> int:
         if not use_canon:
             continue
         n_canon = 0
+        try:
+            n_canon += canon.drop_redundant_rebindings(fn)
+        except Exception:
+            if debug:
+                raise
         for step in ("locals", "rehoist", "tests", "locals2"):
             try:
                 if step in ("locals", "locals2"):
@@ -375,6 +381,15 @@ def build_reference(repo_modules) -> Dict[str, Dict[str, List[List[str]]]]:
             d[q] = {"locals": [[n, sh] for n, sh in s], "tests": sorted(t), "compares": sorted(c), "boolops": sorted(b),
                     "ifs": ifs, "quants": sorted(quants), "src": ast.unparse(fn)}
         d["__functions__"] = _all_quals(tree)
+        # parameter lists of the functions and class constructors defined in this module (bare name; take precedence over the
+        # repository-wide table when calls in this module are normalised)
+        local: Dict[str, List[List[str]]] = {}
+        for n in ast.walk(tree):
+            if isinstance(n, ast.ClassDef):
+                for m in n.body:
+                    if isinstance(m, ast.FunctionDef) and m.name == "__init__" and not m.args.vararg and not m.args.kwarg and not m.args.posonlyargs:
+                        local.setdefault(n.name, []).append([a.arg for a in m.args.args][1:])
+        d["__sigs__"] = {k: v[0] for k, v in local.items() if len(v) == 1 and v[0]}
         if len(d) > 1:
             out[rel] = d
     # parameter lists of repository functions, by bare name, where every definition of that name agrees
@@ -388,5 +403,17 @@ def build_reference(repo_modules) -> Dict[str, Dict[str, List[List[str]]]]:
                 sigs.setdefault(n.name, []).append(ps)
             elif isinstance(n, (ast.FunctionDef, ast.AsyncFunctionDef)):
                 sigs.setdefault(n.name, []).append(["*"])
+    ctor: Dict[str, List[List[str]]] = {}
+    for rel, tree, src in repo_modules:
+        for n in ast.walk(tree):
+            if isinstance(n, ast.ClassDef):
+                inits = [m for m in n.body if isinstance(m, ast.FunctionDef) and m.name == "__init__"]
+                if inits and not inits[0].args.vararg and not inits[0].args.kwarg and not inits[0].args.posonlyargs:
+                    ctor.setdefault(n.name, []).append([a.arg for a in inits[0].args.args][1:])
+                else:
+                    ctor.setdefault(n.name, []).append(["*"])
     out["__sigs__"] = {k: v[0] for k, v in sigs.items() if all(x == v[0] for x in v) and v[0] != ["*"] and v[0] and not k.startswith("__")}
+    for k, v in ctor.items():
+        if len(v) == 1 and v[0] != ["*"] and v[0] and k not in out["__sigs__"]:
+            out["__sigs__"][k] = v[0]
     return out
